@@ -325,6 +325,50 @@ def send_frame_discipline(u: U):
         u.check("C11.send.sent", len(frames) == 1, "an accepted uncompressed send writes exactly one frame")
 
 
+@unit("C11", "close.writer", functions=[f"{WMOD}:WebSocketWriter.close"])
+def close_writer(u: U):
+    """WebSocketWriter.close(code, message): one Close frame whose payload is the status code as two big-endian bytes
+    followed by the reason bytes.  With the reader side (handle_frame.contract: C11.close.*) a close message round-trips:
+    every wire-valid code is accepted and reported as sent."""
+    import struct
+
+    w = mk_writer(u, compress=0)
+    code = u.int("close_code")
+    message = u.bytes("reason")
+    sent = []
+
+    def pack_close_code(c):
+        stubs.used("struct.Struct('!H').pack(c): two bytes hi, lo with hi*256 + lo == c; struct.error outside 0..65535")
+        if not u.branch(And(c >= 0, c <= 65535), "code_fits_u16"):
+            raise struct.error("'H' format requires 0 <= number <= 65535")
+        b = SBytes.fresh("packed_code")
+        u.assume(blen(b) == 2)
+        u.assume(b.byte_at(0) * 256 + b.byte_at(1) == c)
+        return b
+
+    def send_frame(self, payload, opcode, compress=None):
+        sent.append((payload, opcode, fields(w)["_closing"]))
+        return stubs.SAwait(name="send_frame", raises=(ConnectionResetError("gone"),))
+
+    from pyvc.values import methods as _m
+
+    _m(w)["send_frame"] = send_frame
+    f = u.load(WMOD, "WebSocketWriter.close", globals={"PACK_CLOSE_CODE": pack_close_code})
+    out = u.call(f, w, code, message)
+    if not out.ok and isinstance(out.exc, struct.error):
+        u.check("C11.close.writer.refuses_only_unpackable", Not(And(code >= 0, code <= 65535)), "only a code outside 0..65535 is refused")
+        return
+    u.check("C11.close.writer.one_close_frame", len(sent) == 1 and sent[0][1] == rfc.OP_CLOSE,
+            "close() sends exactly one frame, with the Close opcode")
+    if len(sent) == 1:
+        p = SBytes.of(sent[0][0])
+        u.check("C11.close.writer.payload", And(blen(p) == 2 + blen(message), p.byte_at(0) * 256 + p.byte_at(1) == code,
+                                                p.slice(2, None).prov_eq(SBytes.of(message))),
+                "the Close payload is the status code (2 bytes, network order) followed by exactly the reason bytes")
+        u.check("C11.close.writer.closing_before_send", sent[0][2] is True,
+                "the writer is marked closing before the frame is handed to send_frame (no data frame can follow it)")
+
+
 @unit("C11", "send_async_locked", functions=[f"{WMOD}:WebSocketWriter._send_compressed_frame_async_locked"])
 def send_async_locked(u: U):
     """the executor path holds _send_lock from before compress() until after the frame is written."""
